@@ -43,6 +43,7 @@ type Atom struct {
 	Substs   []paramSubst    // parameter substitutions of the inlining chain (innermost first)
 	CtxOuter string          // condition context of the call site(s) through which this atom was inherited
 	Outer    *Atom           // the caller's atom through which this atom was inherited
+	Wrapper  bool            // the condition of an `if A { <only failing checks> }` / `case c:` wrapper: a conjunct of those checks
 	PureSkip bool            // the filter's branch does nothing but skip the element (`if c { continue }`)
 	ShapeP   string          // Shape with the function's parameters kept as ⟦$i|<type>⟧ tokens
 	ConjP    string          // Conj likewise
@@ -92,6 +93,10 @@ func (a *Atom) Sig() string {
 
 // Unit is one analysed body: a declared function or a function literal inside one.
 type Unit struct {
+	wrapperOfStmt map[ast.Node]*conjWrapper // statement -> the wrapper whose body it belongs to
+	wrapperList   []*conjWrapper
+	failingIfs    map[*ast.IfStmt]bool
+	switchOfCase  map[*ast.CaseClause]*ast.SwitchStmt
 	ctxHops int // recursion guard for cached conditions in ctxParts
 	aliasHops int  // recursion guard for following plain copies in argShape
 	leafMode  bool // shapeOf keeps parameters as ⟦$i|<type>⟧ tokens
@@ -486,7 +491,7 @@ func (u *Unit) GuardedBy(a *Atom, n ast.Node) bool {
 	if nb == nil {
 		return false
 	}
-	if a.Tail {
+	if a.Tail || a.Wrapper {
 		return false
 	}
 	if nb == a.Block {
@@ -505,7 +510,7 @@ func (u *Unit) onlyVia(a *Atom, nb *cfg.Block) bool {
 // Guards reports whether atom a's block dominates n's block and n is not in a's failure branch.
 func (u *Unit) Guards(a *Atom, n ast.Node) bool {
 	nb := u.BlockOf(n)
-	if nb == nil || a.Unit != u || a.Tail {
+	if nb == nil || a.Unit != u || a.Tail || a.Wrapper {
 		return false
 	}
 	if nb == a.Block {
@@ -957,6 +962,157 @@ func identOf(e ast.Expr) *ast.Ident {
 	return id
 }
 
+// conjWrapper: an `if A {…}` (no else) or a single-value `case c:` of a tag switch whose body consists only of
+// failing checks (`if B { return err }`).
+type conjWrapper struct {
+	node   ast.Node   // *ast.IfStmt or *ast.CaseClause
+	leaves []ast.Expr // the conjuncts of the wrapper condition (A1, A2 of `A1 && A2`; the synthetic `x == c`)
+	block  *cfg.Block // block of the wrapper condition (nil for a case clause)
+	at     ast.Node
+	pos    token.Pos
+	inner  []ast.Expr // leaves of the checks inside
+}
+
+func (w *conjWrapper) encloses(o *conjWrapper) bool {
+	return w.node.Pos() <= o.node.Pos() && o.node.End() <= w.node.End() && w.node != o.node
+}
+
+func leafExprs(ls []leafInfo) []ast.Expr {
+	var out []ast.Expr
+	for _, l := range ls {
+		out = append(out, l.expr)
+	}
+	return out
+}
+
+// isFailingIf: `if c { …fails… }` without else whose then-branch lies entirely in the failure region.
+func (u *Unit) isFailingIf(st ast.Stmt) bool {
+	is, ok := st.(*ast.IfStmt)
+	if !ok || is.Else != nil || len(is.Body.List) == 0 {
+		return false
+	}
+	b := u.BlockOf(is.Body.List[0])
+	return b != nil && u.FR[b]
+}
+
+// conjWrappersOf: the chain of wrappers (innermost first) around the failing `if` whose condition is cond.
+func (u *Unit) conjWrappersOf(cond ast.Expr) []*conjWrapper {
+	if u.wrapperOfStmt == nil {
+		u.buildWrappers()
+	}
+	// the IfStmt owning cond
+	var own *ast.IfStmt
+	for st := range u.failingIfs {
+		if st.Cond == cond {
+			own = st
+			break
+		}
+	}
+	if own == nil {
+		return nil
+	}
+	var out []*conjWrapper
+	var cur ast.Node = own
+	for {
+		w := u.wrapperOfStmt[cur]
+		if w == nil {
+			break
+		}
+		out = append(out, w)
+		cur = w.node
+		if cc, ok := w.node.(*ast.CaseClause); ok {
+			cur = u.switchOfCase[cc]
+		}
+	}
+	return out
+}
+
+func (u *Unit) buildWrappers() {
+	u.wrapperOfStmt = map[ast.Node]*conjWrapper{}
+	u.failingIfs = map[*ast.IfStmt]bool{}
+	u.switchOfCase = map[*ast.CaseClause]*ast.SwitchStmt{}
+	allFailing := func(list []ast.Stmt) bool {
+		if len(list) == 0 {
+			return false
+		}
+		for _, st := range list {
+			if !u.isFailingIf(st) {
+				// a nested wrapper is fine too
+				if is, ok := st.(*ast.IfStmt); ok && is.Else == nil && u.wrapperBody(is.Body.List) {
+					continue
+				}
+				return false
+			}
+		}
+		return true
+	}
+	ast.Inspect(u.Body, func(n ast.Node) bool {
+		if lit, ok := n.(*ast.FuncLit); ok && lit != u.Lit {
+			return false
+		}
+		switch x := n.(type) {
+		case *ast.IfStmt:
+			if u.isFailingIf(x) {
+				u.failingIfs[x] = true
+			}
+			if x.Else != nil || x.Init != nil || u.isFailingIf(x) || !allFailing(x.Body.List) {
+				return true
+			}
+			if t := u.Info.TypeOf(x.Cond); t == nil || !isBoolType(t) {
+				return true
+			}
+			w := &conjWrapper{node: x, block: u.BlockOf(x.Cond), at: x.Cond, pos: x.Cond.Pos()}
+			var ls []leafInfo
+			splitLeaves(x.Cond, true, &ls)
+			// only a pure conjunction can be merged (`A1 && A2`); a disjunctive wrapper stays a mode condition
+			if len(ls) > 1 && len(ls[0].conj) == 0 {
+				return true
+			}
+			for _, l := range ls {
+				if !l.failTrue {
+					return true // negated conjuncts keep their polarity only in context form
+				}
+			}
+			w.leaves = leafExprs(ls)
+			for _, st := range x.Body.List {
+				u.wrapperOfStmt[st] = w
+			}
+			u.wrapperList = append(u.wrapperList, w)
+		case *ast.SwitchStmt:
+			if x.Tag == nil || x.Init != nil {
+				return true
+			}
+			for _, st := range x.Body.List {
+				cc := st.(*ast.CaseClause)
+				u.switchOfCase[cc] = x
+				if len(cc.List) != 1 || !allFailing(cc.Body) {
+					continue
+				}
+				eq := &ast.BinaryExpr{X: x.Tag, Op: token.EQL, Y: cc.List[0], OpPos: cc.List[0].Pos()}
+				w := &conjWrapper{node: cc, leaves: []ast.Expr{eq}, block: u.BlockOf(x.Tag), at: x.Tag, pos: cc.Pos()}
+				for _, s2 := range cc.Body {
+					u.wrapperOfStmt[s2] = w
+				}
+				u.wrapperList = append(u.wrapperList, w)
+			}
+		}
+		return true
+	})
+}
+
+// wrapperBody: every statement is a failing `if` (used for nested wrappers).
+func (u *Unit) wrapperBody(list []ast.Stmt) bool {
+	if len(list) == 0 {
+		return false
+	}
+	for _, st := range list {
+		if !u.isFailingIf(st) {
+			return false
+		}
+	}
+	return true
+}
+
 func (u *Unit) extractAtoms(g *GuardEngine) {
 	pd := u.computeControlDeps()
 	for _, b := range u.CFG.Blocks {
@@ -989,6 +1145,24 @@ func (u *Unit) extractAtoms(g *GuardEngine) {
 			leaves = []leafInfo{{expr: cond, failTrue: failTrue}}
 		}
 		must := pd[b]
+		// `if A { if B { fail } }` and `switch x { case c: if B { fail } }` are the guard `A && B → fail`: the wrapper's
+		// condition is a conjunct of the inner check (and the inner check is as unconditional as the wrapper)
+		if ws := u.conjWrappersOf(cond); len(ws) > 0 {
+			var wl []ast.Expr
+			for _, w := range ws {
+				wl = append(wl, w.leaves...)
+			}
+			for i := range leaves {
+				leaves[i].conj = append(leaves[i].conj, wl...)
+			}
+			outer := ws[len(ws)-1]
+			if outer.block != nil {
+				must = pd[outer.block]
+			}
+			for _, w := range ws {
+				w.inner = append(w.inner, leafExprs(leaves)...)
+			}
+		}
 		for _, lf := range leaves {
 			a := &Atom{Leaf: lf.expr, FailTrue: lf.failTrue, Block: b, FailSucc: failSucc, OkSucc: okSucc, Unit: u,
 				Pos: lf.expr.Pos(), Must: must, InLit: u.Lit != nil}
@@ -1022,6 +1196,65 @@ func (u *Unit) extractAtoms(g *GuardEngine) {
 				a.Conj = "&&(" + strings.Join(cs, ",") + ")"
 				a.ConjP = strings.Join(csp, "\x00")
 			}
+			u.Atoms = append(u.Atoms, a)
+		}
+	}
+	// the wrappers themselves: `A` of `if A { if B { fail } }` is the other conjunct of `A && B → fail`
+	for _, w := range u.wrapperList {
+		if len(w.inner) == 0 {
+			continue
+		}
+		for i, le := range w.leaves {
+			a := &Atom{Leaf: le, FailTrue: true, Block: w.block, Unit: u, Pos: w.pos, Must: w.block != nil && pd[w.block], InLit: u.Lit != nil, Wrapper: true}
+			var calls []*ast.CallExpr
+			u.rootCalls(le, w.at, map[ast.Node]bool{}, 0, &calls)
+			a.Calls = calls
+			ks := map[string]bool{}
+			for _, c := range calls {
+				if k := u.calleeKey(c); k != "" {
+					ks[k] = true
+				}
+			}
+			for k := range ks {
+				a.Callees = append(a.Callees, k)
+			}
+			sort.Strings(a.Callees)
+			a.Shape = u.leafShape(le, true)
+			u.leafMode = true
+			a.ShapeP = u.leafShape(le, true)
+			u.leafMode = false
+			var conj []ast.Expr
+			for j, o := range w.leaves {
+				if j != i {
+					conj = append(conj, o)
+				}
+			}
+			conj = append(conj, w.inner...)
+			for _, ow := range u.wrapperList {
+				if ow != w && ow.encloses(w) {
+					conj = append(conj, ow.leaves...)
+				}
+				if ow != w && w.encloses(ow) {
+					conj = append(conj, ow.leaves...)
+				}
+			}
+			cs, csp := []string{}, []string{}
+			seen := map[string]bool{}
+			for _, c := range conj {
+				sh := u.leafShape(c, true)
+				if seen[sh] {
+					continue
+				}
+				seen[sh] = true
+				cs = append(cs, sh)
+				u.leafMode = true
+				csp = append(csp, u.leafShape(c, true))
+				u.leafMode = false
+			}
+			sort.Strings(cs)
+			sort.Strings(csp)
+			a.Conj = "&&(" + strings.Join(cs, ",") + ")"
+			a.ConjP = strings.Join(csp, "\x00")
 			u.Atoms = append(u.Atoms, a)
 		}
 	}
